@@ -214,9 +214,10 @@ def compute_combined_features(
         full_combination_space = full_combination_space + [tuple for tuple in model_combinations if tuple not in full_combination_space]
 
     def combine_features(new_combination):
-        combined_feature = input_dataframe[new_combination[0]].astype(str)
+        # Length-prefix every constituent so that different value tuples never concatenate to the same string
+        combined_feature = input_dataframe[new_combination[0]].astype(str).map(lambda x: f'{len(x)}:{x}')
         for feature in new_combination[1:]:
-            combined_feature += input_dataframe[feature].astype(str)
+            combined_feature += input_dataframe[feature].astype(str).map(lambda x: f'{len(x)}:{x}')
         combined_feature = combined_feature.apply(lambda x: xxhash.xxh64(x.encode('utf-8')).hexdigest())
         ftr_name = join_string.join(new_combination)
         return ftr_name, combined_feature
